@@ -77,6 +77,21 @@ fn ch_with(t: &mut Tape, f: impl FnOnce(&mut MHs)) -> Vec<u8> {
     h.to_bytes()
 }
 
+/// for a quarter of the values under test the ServerHello carries a random the RFCs give a meaning to (RFC 8446 4.1.3: the
+/// HelloRetryRequest marker with legacy version 0x0303, or a downgrade sentinel): the ids next to it are still returned unchanged
+fn special_random(h: &mut MHs, v: u32) {
+    if let MHs::ServerHello { version, random, .. } = h {
+        match v % 8 {
+            1 => {
+                *version = 0x0303;
+                *random = HRR_RANDOM.to_vec();
+            }
+            5 => random[24..].copy_from_slice(b"DOWNGRD\x01"),
+            _ => {}
+        }
+    }
+}
+
 fn parse_hs(b: &[u8]) -> Result<TlsMessageHandshake<'_>, String> {
     match parse_tls_message_handshake(b) {
         Ok((_, TlsMessage::Handshake(h))) => Ok(h),
@@ -135,11 +150,13 @@ fn specs() -> Vec<Spec> {
         Spec { name: "ServerHello selected cipher", bits: 16, registry: None, probe: |v, t| {
             let mut h = gen_hs_kind(t, 2, 100);
             if let MHs::ServerHello { cipher, .. } = &mut h { *cipher = v as u16 }
+            special_random(&mut h, v);
             match parse_hs(&h.to_bytes())? { TlsMessageHandshake::ServerHello(c) => Ok(c.cipher.0 as u32), o => Err(format!("{:?}", o)) }
         } },
         Spec { name: "ServerHello compression", bits: 8, registry: Some(&ia::COMPRESSION), probe: |v, t| {
             let mut h = gen_hs_kind(t, 2, 100);
             if let MHs::ServerHello { comp, .. } = &mut h { *comp = v as u8 }
+            special_random(&mut h, v);
             match parse_hs(&h.to_bytes())? { TlsMessageHandshake::ServerHello(c) => Ok(c.compression.0 as u32), o => Err(format!("{:?}", o)) }
         } },
         Spec { name: "ServerHello (draft 18) cipher", bits: 16, registry: None, probe: |v, t| {
@@ -224,8 +241,19 @@ fn specs() -> Vec<Spec> {
             match parse_hs(&h.to_bytes())? { TlsMessageHandshake::CertificateRequest(c) => Ok(c.cert_types[1] as u32), o => Err(format!("{:?}", o)) }
         } },
         Spec { name: "SNI name type", bits: 8, registry: Some(&ia::SNI_TYPE), probe: |v, t| {
-            let m = MExt::Sni(vec![(v as u8, t.small_blob(12)), (0, b"example.org".to_vec())]);
-            match parse_tls_extension(&m.to_bytes()).map_err(err)?.1 { TlsExtension::SNI(l) => Ok(l[0].0 .0 as u32), o => Err(format!("{:?}", o)) }
+            // the value in several positions, next to an entry of the same type and next to entries of other types: every entry is returned
+            let other = (v as u8).wrapping_add(1 + t.u8() % 254);
+            let l0 = vec![(v as u8, t.small_blob(12)), (v as u8, b"b.example".to_vec()), (other, b"example.org".to_vec()), (v as u8, vec![]), (0, b"a".to_vec())];
+            let m = MExt::Sni(l0.clone());
+            match parse_tls_extension(&m.to_bytes()).map_err(err)?.1 {
+                TlsExtension::SNI(l) => {
+                    if l.len() != l0.len() || l.iter().zip(l0.iter()).any(|(g, w)| g.0 .0 != w.0 || g.1 != w.1.as_slice()) {
+                        return Err(format!("{} name entries written, read back: {:?}", l0.len(), l));
+                    }
+                    Ok(l[1].0 .0 as u32)
+                }
+                o => Err(format!("{:?}", o)),
+            }
         } },
         Spec { name: "certificate status type (status_request extension)", bits: 8, registry: Some(&ia::CERT_STATUS_TYPE), probe: |v, t| {
             let m = MExt::StatusRequest(Some((v as u8, t.small_blob(12))));
@@ -359,7 +387,8 @@ fn fields(t: &mut Tape, obs: &mut Obs) -> R {
         return Ok(());
     }
     // template variant: a small deterministic tape (variant 0 = all zeros = the simplest structure)
-    let seed = if k == 0 { vec![0u8; 8] } else { fill(0xC11 ^ (k as u64) << 16 ^ si as u64, 96) };
+    // (for the other variants the surrounding values also change with the value under test, 251 templates per variant)
+    let seed = if k == 0 { vec![0u8; 8] } else { fill(0xC11 ^ (k as u64) << 16 ^ si as u64 ^ ((v % 251) as u64) << 24, 96) };
     let mut tt = Tape::new(&seed);
     let named = s.registry.map_or(false, |r| r.name_of(v).is_some());
     if !named {
